@@ -47,6 +47,11 @@ def enc(v):
     if isinstance(v, Decimal): return {'t': 'dec', 'v': num_of_dec(v)}
     return {'t': 'other', 'v': type(v).__name__}
 
+def enc_out(v):
+    """the form the driver answers in: strings as code point lists (raw U+2028, U+0085 … would break its line protocol)"""
+    if isinstance(v, str): return {'t': 'str', 'cp': [ord(c) for c in v]}
+    return enc(v)
+
 def show(v):
     if v is DEFAULT: return '<missing>'
     return repr(v)
@@ -539,7 +544,7 @@ def compare_with_model(ctx, work):
         if got[0] == 'error':
             impl = {'error': got[1]}
         elif entry in ('create', 'assign', 'set'):
-            impl = {'ok': enc(got[1])}
+            impl = {'ok': enc_out(got[1])}
         else:
             impl = {'ok': '<lookup>'}
         m = dict(out)
@@ -574,7 +579,7 @@ def strip_tie(ctx):
     outs = ctx.driver('C08', [{'op': 'strip', 's': s} for s in strs])
     for s, o in zip(strs, outs):
         ctx.case(['strip', s], kind='strip-tie')
-        if o.get('ok') != s.strip():
+        if o.get('ok') != [ord(c) for c in s.strip()]:
             ctx.divergence('model strip differs from str.strip()', repr(s), model=o, impl=repr(s.strip()))
 
 def run(ctx):
